@@ -22,7 +22,8 @@ Definition lv_pack (v : lv) : bytes :=
 
 (* CfdpLv.unpack *)
 Definition lv_unpack (raw : bytes) : res lv :=
-  do detected_len <- py_get raw 0;                         (* raw_bytes[0] : IndexError on b"" *)
+  if len raw <? 1 then Err ETooShort else
+  do detected_len <- py_get raw 0;
   if 1 + detected_len >? len raw then Err EValue else
   if detected_len =? 0 then lv_new []
   else lv_new (slice raw 1 (1 + detected_len)).
